@@ -5,6 +5,7 @@ nondeterministic kernel.  Every theorem quantifies over ALL event sequences and 
 -/
 import JanetModel.Stream.Lemmas
 import JanetModel.Stream.Slots
+import JanetModel.Proc.Status
 
 namespace JanetModel.Props.C16
 open JanetModel.Stream
@@ -181,5 +182,67 @@ example : (runRead true false 4096 0 (rInit 6 [1, 2, 3, 4, 5]) [.ready [.bytes 2
 example : (runRead true false 4096 0 (rInit 6 [1, 2, 3, 4, 5]) [.ready [.bytes 2, .eagain], .ready [.bytes 3, .bytes 0]]).st.got = [1, 2, 3, 4, 5] := by decide
 example : (runRead true false 4096 0 (rInit 4 [1, 2, 3, 4, 5]) [.ready [.bytes 2, .eagain], .ready [.bytes 3]]).res = .buf .full := by decide
 example : (runRead false false 4096 0 (rInit 4 ([] : List Nat)) [.ready [.eagain], .ready [.bytes 0]]).res = .nil false := by decide
+
+/-! ## subprocess exit status (`proc_get_status`, src/core/os.c) -/
+section ExitStatus
+open JanetModel.Proc
+
+/-- ★ Exit status is reported exactly.  For EVERY wait-status word that `waitpid(pid, &status, 0)` can deliver for a
+    terminated child on Linux — `exit(c)` for all 256 exit codes, death by signal `s` for every signal number the 7-bit
+    field can hold (1 … 126; 127 is the "stopped" marker), with and without the core-dump bit — the decoder of
+    `proc_get_status` (macros as expanded by the build's preprocessor, branch order as written) returns the exit code,
+    respectively 128 + signal number (POSIX shell convention); and the `WIFSTOPPED` arm, which sits BEFORE the
+    `WIFSIGNALED` arm in the C, is never the one taken for such a word.
+    (Complete enumeration of the 256 + 2·126 words by kernel evaluation; the statement is about all of them.) -/
+theorem exit_status_exact :
+    (∀ c, c < 256 → decode modelBranches (exitWord c) = .code (Int.ofNat c)) ∧
+    (∀ s, s < 127 → 1 ≤ s → ∀ core : Bool, decode modelBranches (sigWord s core) = .code (Int.ofNat (128 + s))) ∧
+    (∀ c, c < 256 → mWIFSTOPPED.eval (exitWord c) = 0) ∧
+    (∀ s, s < 127 → 1 ≤ s → ∀ core : Bool, mWIFSTOPPED.eval (sigWord s core) = 0) := by
+  refine ⟨?_, ?_, ?_, ?_⟩ <;> decide +kernel
+
+/-- the reported value determines what happened, up to the ambiguity that is inherent in the shell convention
+    (exit code 128+s vs. signal s): two terminated children with different exit codes report different values, two
+    children killed by different signals report different values, and the core-dump bit never shows. -/
+theorem exit_status_injective :
+    (∀ c, c < 256 → ∀ d, d < 256 → decode modelBranches (exitWord c) = decode modelBranches (exitWord d) → c = d) ∧
+    (∀ s, s < 127 → 1 ≤ s → ∀ t, t < 127 → 1 ≤ t → ∀ k l : Bool,
+        decode modelBranches (sigWord s k) = decode modelBranches (sigWord t l) → s = t) := by
+  have h := exit_status_exact
+  refine ⟨?_, ?_⟩
+  · intro c hc d hd e
+    rw [h.1 c hc, h.1 d hd] at e
+    injection e with e
+    exact Int.ofNat.inj e
+  · intro s hs hs1 t ht ht1 k l e
+    rw [h.2.1 s hs hs1 k, h.2.1 t ht ht1 l] at e
+    injection e with e
+    have := Int.ofNat.inj e
+    omega
+
+/-- words that `waitpid` with options 0 never delivers are characterised too: a stop (WUNTRACED / ptrace) would be
+    reported as 128 + stop signal, a continue (0xffff) reaches the final `else` (panic). -/
+theorem stop_and_continue_words :
+    (∀ s, s < 256 → decode modelBranches (stopWord s) = .code (Int.ofNat (128 + s))) ∧
+    decode modelBranches contWord = .panic := by
+  refine ⟨?_, ?_⟩ <;> decide +kernel
+
+/-- ☆ why the arms cannot be merged (seeded C16-4) or the offset dropped (builder mutation m5): with `WSTOPSIG` in the
+    signaled arm every signal death reads bits 8‥15 (zero) and reports 128; without `+ 128` SIGKILL reports 9, the same
+    value as `exit(9)`. -/
+theorem merged_or_unshifted_arm_is_wrong :
+    decode [(mWIFEXITED, mWEXITSTATUS), (.gt (.add mWIFSTOPPED mWIFSIGNALED) (.lit 0), .add mWSTOPSIG (.lit 128))] (sigWord 9 false)
+      = .code 128 ∧
+    decode [(mWIFEXITED, mWEXITSTATUS), (mWIFSTOPPED, .add mWSTOPSIG (.lit 128)), (mWIFSIGNALED, mWTERMSIG)] (sigWord 9 false)
+      = decode modelBranches (exitWord 9) := by
+  refine ⟨?_, ?_⟩ <;> decide +kernel
+
+-- non-vacuity: SIGKILL -> 137, SIGSEGV with core dump -> 139, exit 255 -> 255, exit 0 -> 0
+example : decode modelBranches (sigWord 9 false) = .code 137 := by decide +kernel
+example : decode modelBranches (sigWord 11 true) = .code 139 := by decide +kernel
+example : decode modelBranches (exitWord 255) = .code 255 := by decide +kernel
+example : decode modelBranches 0 = .code 0 := by decide +kernel
+
+end ExitStatus
 
 end JanetModel.Props.C16
